@@ -437,6 +437,71 @@ func TestExhaustiveBoundary(t *testing.T) {
 	vh.Exhaustive("boundary", fmt.Sprintf("major type {0,2,3,4,5} x argument at every width boundary (%d values up to 2^62-1) x every head width that can hold it x content/items present = declared-1, declared, declared+1 (0,1,2,30 for huge declarations) x 5 contexts: %d inputs", len(args), n))
 }
 
+// ---------------------------------------------------------------------------- (b2) every initial byte
+//
+// Every one of the 256 initial bytes, followed by k copies of a content unit (a content byte, a
+// one-byte item, an ascending key/value pair) for k around every value the additional
+// information could be mistaken for (a reserved 28..30 read as a direct count needs >= 28 units
+// to be "complete"; a 1-byte argument read as direct needs 24; ...), in the five contexts.
+
+type InitByteCase struct {
+	Init byte   `json:"init"`
+	Unit string `json:"unit"` // byte item pair arg8
+	K    int    `json:"k"`
+	Ctx  string `json:"ctx"`
+}
+
+func (c InitByteCase) bytes() []byte {
+	it := []byte{c.Init}
+	for i := 0; i < c.K; i++ {
+		switch c.Unit {
+		case "byte":
+			it = append(it, 'a'+byte(i%26))
+		case "item":
+			it = append(it, byte(i%24))
+		case "pair":
+			it = append(it, refcbor.Uint(uint64(i))...)
+			it = append(it, 0x00)
+		case "zero":
+			it = append(it, 0x00)
+		}
+	}
+	switch c.Ctx {
+	case "in-array":
+		return append([]byte{0x81}, it...)
+	case "map-value":
+		return append([]byte{0xa1, 0x00}, it...)
+	case "then-uint":
+		return append(it, 0x05)
+	case "second-of-two":
+		return append([]byte{0x82, 0x00}, it...)
+	}
+	return it
+}
+
+var initByteProp = vh.Define("C13", "initial-byte", func(c InitByteCase, r *vh.R) {
+	judge("initial-byte", c.bytes(), r)
+	r.Classf("ai%d", c.Init&0x1f)
+})
+
+func TestExhaustiveInitialByte(t *testing.T) {
+	ks := []int{0, 1, 2, 3, 4, 5, 8, 9, 23, 24, 25, 26, 27, 28, 29, 30, 31, 32, 33, 56, 57, 58, 60, 62, 64, 300}
+	n := 0
+	for init := 0; init < 256; init++ {
+		for _, unit := range []string{"byte", "item", "pair", "zero"} {
+			for _, k := range ks {
+				for _, ctx := range contexts {
+					n++
+					if !initByteProp.One(t, InitByteCase{Init: byte(init), Unit: unit, K: k, Ctx: ctx}) {
+						return
+					}
+				}
+			}
+		}
+	}
+	vh.Exhaustive("initial-byte", fmt.Sprintf("all 256 initial bytes x 4 kinds of following unit (content byte, one-byte item, ascending pair, zero byte) x %d repetition counts around every value the additional information could be mistaken for x 5 contexts: %d inputs", len(ks), n))
+}
+
 // Arguments that do not fit a signed 64-bit integer, or whose double does not (maps).
 func TestExhaustiveBigArgs(t *testing.T) {
 	args := []uint64{1 << 62, 1<<62 + 1, 1<<63 - 1, 1 << 63, 1<<63 + 1, 1<<63 + 2}
